@@ -260,3 +260,16 @@ func hx(v uint64) string { return fmt.Sprintf("%016x", v) }
 
 var _ = strings.Join
 var _ = time.Second
+
+// thorough reports whether the run belongs to the thorough tier (VERIF_TIER),
+// in which scenarios widen their bounds (more callers, longer histories, larger
+// dumps and programs).
+func thorough() bool { return os.Getenv("VERIF_TIER") == "thorough" }
+
+// widen returns hi in the thorough tier and lo otherwise.
+func widen(lo, hi int) int {
+	if thorough() {
+		return hi
+	}
+	return lo
+}
